@@ -136,7 +136,7 @@ def runOps (spec : MsgSpec) : List HOp → MsgObj → Option MsgObj → List Str
 `HFixedSpec`; the generator emits one line with the spec spelled out next to the same line
 with `@`, so a mismatch between the two constants shows as a difference) -/
 def fixedSpec : String :=
-  "m(p(s,4,ascii,ascii.F,nil,d),bm(8,binary,binary.F,1),f(2,p(s,19,ascii,ascii.2,nil,d)),f(3,p(n,6,ascii,ascii.F,L30,d)),f(55,c(99,ascii.2,t(2,ascii,nil,str,0,-),sub(0a,p(s,9,ascii,ascii.2,nil,d)),sub(0b,p(n,4,ascii,ascii.1,nil,d)))),f(60,c(99,ascii.3,t(2,ascii,nil,str,0,-),sub(n1,c(40,ascii.2,t(1,ascii,nil,str,0,-),sub(x,p(s,9,ascii,ascii.1,nil,d)),sub(y,p(s,9,ascii,ascii.1,nil,d)))),sub(p1,p(s,5,ascii,ascii.1,nil,d)))),f(66,p(s,5,ascii,ascii.1,nil,d)))"
+  "m(p(s,4,ascii,ascii.F,nil,d),bm(8,binary,binary.F,1),f(2,p(s,19,ascii,ascii.2,nil,d)),f(3,p(n,6,ascii,ascii.F,L30,d)),f(55,c(99,ascii.2,t(2,ascii,nil,str,0,-),sub(0a,p(s,9,ascii,ascii.2,nil,d)),sub(0b,p(n,4,ascii,ascii.1,nil,d)))),f(60,c(99,ascii.3,t(2,ascii,nil,str,0,-),sub(n1,c(60,ascii.2,t(1,ascii,nil,str,0,-),sub(x,p(s,9,ascii,ascii.1,nil,d)),sub(y,p(s,9,ascii,ascii.1,nil,d)),sub(d,c(30,ascii.2,t(1,ascii,nil,str,0,-),sub(u,p(s,9,ascii,ascii.1,nil,d)),sub(v,p(s,9,ascii,ascii.1,nil,d)))))),sub(p1,p(s,5,ascii,ascii.1,nil,d)))),f(66,p(s,5,ascii,ascii.1,nil,d)))"
 
 def runLine (spec0 ops : String) (lastOnly : Bool) : String :=
   let spec := if spec0 = "@" then fixedSpec else spec0
